@@ -49,7 +49,7 @@ def render(mode=None, canary=None):
     if canary == 'target_path_no_first':
         out['target_path'] = out['target_path'].replace('>> 1', '>> 0')
     hdr = unitgen.load_text('units/inlinepaths.hdr.rs') if hasattr(unitgen, 'load_text') else open(unitgen.VERIF + '/units/inlinepaths.hdr.rs').read()
-    gen = unitgen.generate_from_text('inlinepaths', hdr.replace('/*TARGET_PATH_STMT*/', out['target_path']).replace('/*TAIL_PATH_STMT*/', out['tail_path']))
+    gen = unitgen.generate_from_text('inlinepaths', hdr.replace('/*TARGET_PATH_STMT*/', out['target_path']).replace('/*TAIL_PATH_STMT*/', out['tail_path']), mode=mode)
     gen['items'] = gen['items'] + items
     gen['notes'] = notes + gen['notes']
     gen['canaries'] = gen['canaries'] + [('tail_path_shift', 'arg_lookup'), ('target_path_no_first', 'choose_arg_from_list_or_tail')]
